@@ -10,3 +10,5 @@ open Model.C14
 #print axioms cross_join_deadlock_free
 #print axioms join_terminates
 #print axioms Model.C13.no_acquire_while_holding
+#print axioms join_heads_are_entries_any
+#print axioms heads_are_entries_every_schedule
